@@ -31,8 +31,17 @@ Proof. exact handshake_sees_latest. Qed.
 
 Theorem C17_returning_sees_latest : forall es s wc,
   let cur := last_reload (i_cur s) es in
-  snd (istep (final s es) (IReturning wc)) = if negb (snd cur) || wc then [1; fst cur] else [0].
+  snd (istep (final s es) (IReturning wc)) =
+  if admitted (snd cur) (if wc then 1 else 0) then [1; fst cur] else [0].
 Proof. exact returning_sees_latest. Qed.
+
+Theorem C17_fresh_sees_latest : forall es s kind,
+  let cur := last_reload (i_cur s) es in
+  snd (istep (final s es) (IFresh kind)) = if admitted (snd cur) kind then [1; fst cur] else [0].
+Proof. exact fresh_sees_latest. Qed.
+
+Theorem C17_admitted_iff : forall ca kind, admitted ca kind = true <-> ca = 0 \/ ca = kind.
+Proof. exact admitted_iff. Qed.
 
 (* the requested name: --tls-server-name over --hostname over the URL host, whatever the others are *)
 Theorem C17_sni_overrides : forall url hn n, select_name url hn (Some n) = n.
